@@ -2,6 +2,7 @@ package main
 
 import (
 	"bytes"
+	"context"
 	"crypto"
 	"crypto/ecdsa"
 	"crypto/rsa"
@@ -430,6 +431,10 @@ func (r *areq) reqTerm() (string, string, string) {
 	return reqTerm, sf, ss
 }
 
+var nEmitSign int
+
+type ctxKey struct{}
+
 func emitSign(w *CaseWriter, r *areq) {
 	mt := mediaTypes[r.Fmt]
 	reqTerm, sf, ss := r.reqTerm()
@@ -448,6 +453,10 @@ func emitSign(w *CaseWriter, r *areq) {
 			panic(err)
 		}
 		req := r.build()
+		nEmitSign++
+		if nEmitSign%2 == 0 { // every other request travels as the copy WithContext makes (it must carry all fields)
+			req = req.WithContext(context.WithValue(context.Background(), ctxKey{}, nEmitSign))
+		}
 		noteCurrentCase(map[string]any{"labels": r.Labels, "media_type": mt})
 		b, err := env.Sign(req)
 		switch {
